@@ -23,6 +23,10 @@ type forExpander struct {
 	forContent           []token
 	forDepth             int
 
+	// number of leading labels in labelBuf that were handed on by a block
+	// that emitted nothing
+	handedOnLabels int
+
 	symbols map[string][]token
 
 	// output fields
@@ -120,6 +124,7 @@ func forLine(f *forExpander) forStateFn {
 	switch f.nextToken.typ {
 	case tokText:
 		f.labelBuf = make([]string, 0)
+		f.handedOnLabels = 0
 		return forConsumeLabels
 	default:
 		return forConsumeEmitLine
@@ -137,6 +142,14 @@ func forConsumeLabels(f *forExpander) forStateFn {
 		if f.nextToken.IsPseudoOp() {
 			opLower := strings.ToLower(f.nextToken.val)
 			if opLower == "for" {
+				if f.handedOnLabels > 0 && len(f.labelBuf) == f.handedOnLabels {
+					// every label in front of this block was handed on by a
+					// block that emitted nothing: the block has no count
+					// variable of its own, give it an unused one so that
+					// the labels stay labels
+					f.labelBuf = append(f.labelBuf, "__for_unnamed_"+strings.Join(f.labelBuf, "_"))
+				}
+				f.handedOnLabels = 0
 				f.next()
 				f.exprBuf = make([]token, 0)
 				return forConsumeExpression
@@ -342,7 +355,7 @@ func forInnerLabels(f *forExpander) forStateFn {
 				return forInnerEmitLabels
 			}
 		} else if f.nextToken.IsOp() {
-			if f.forLineLabelsToWrite != nil {
+			if f.forLineLabelsToWrite != nil && f.forCount >= 1 {
 				for _, label := range f.forLineLabelsToWrite {
 					f.tokens <- token{tokText, label}
 				}
@@ -415,6 +428,15 @@ func forRof(f *forExpander) forStateFn {
 				f.tokens <- tok
 			}
 		}
+	}
+
+	if len(f.forLineLabelsToWrite) > 0 {
+		// the block emitted nothing (count zero, or no instruction in its
+		// body): its labels belong to the next line
+		f.labelBuf = f.forLineLabelsToWrite
+		f.handedOnLabels = len(f.labelBuf)
+		f.forLineLabelsToWrite = nil
+		return forConsumeLabels
 	}
 
 	// carry on with the lines after the block: every outermost block of the
